@@ -414,7 +414,7 @@ def compare(behs, results, observe, ordered=True, nsetup_events=0, safety_only=F
                 # optional predictions (kind?): an observed item they cover is accepted, none is required
                 o = [it for it in o if not any(item_match(q, it) for q in opt)]
                 px = [p for p in px if not (p and isinstance(p[0], str) and p[0].endswith("?"))]
-            if not match_lists(px, o, ordered):
+            if not match_lists(px, o, ordered(st["e"]) if callable(ordered) else ordered):
                 bad = Mismatch(bi, si, "mismatch", px, o, st["e"])
                 break
         if bad is None and status != "ok":
